@@ -95,6 +95,7 @@ SUB_GEN = ("Needles: random over alphabets of 1/2/3/4/256 letters, periodic u^k,
 
 PLANS = {
     "C01": {
+        "technique": 'property-based testing: bounded-exhaustive enumeration (alignment x length x match layout, all match bitmaps) + proptest layouts against a naive oracle; emulated NEON/simd128, forced CPU levels, Miri sample, >4 GiB stage',
         "rule": "cases = (needle bytes, haystack, placement). Enumerated: every start alignment mod 64 (128 thorough) x every length 0..=L x "
                 "every first-match position x {none, single, first+all later match, last+all earlier match} for every implementation "
                 "(top-level at three forced CPU levels, arch::all, sse2, avx2, emulated neon/simd128, 4- and 8-lane checked vectors), "
@@ -105,23 +106,27 @@ PLANS = {
         "stages": byte_stages() + [miri_stage("B", targets=["M-a64", "M-i686", "M-s390x"]), huge_stage(NATIVE)],
     },
     "C02": {
+        "technique": 'property-based testing: bounded-exhaustive enumeration on the END alignment + proptest layouts against a naive oracle; emulated NEON/simd128, forced CPU levels, Miri sample, >4 GiB stage',
         "rule": "as C01 with the END alignment as the enumerated axis (the reverse scan aligns on the end pointer) and rfind/rfind_raw/"
                 "memrchr* judged against the naive last position. Non-trivial: the last match lies before the final vector of the scan, "
                 "or 0 < len < one vector, or the match is on the 2nd/3rd needle.",
         "stages": byte_stages() + [miri_stage("B", targets=["M-a64", "M-i686", "M-s390x"]), huge_stage(NATIVE)],
     },
     "C03": {
+        "technique": 'property-based testing: needle-derived structured generation (proptest, shrinking) + exhaustive small-alphabet (needle, haystack) pairs against a naive oracle',
         "rule": SUB_GEN + "Judged: memmem::find, Finder::find, FinderBuilder(Prefilter::None)::find against the naive leftmost occurrence. "
                 "Non-trivial: needle length >= 2 and it occurs, or a window sharing >= half of the needle's prefix precedes the answer. "
                 "Distinct by hash of (needle, haystack); enumerated pairs are distinct by construction.",
         "stages": sub_stages() + [huge_stage(["N-auto", "N-fb"])],
     },
     "C04": {
+        "technique": 'property-based testing: needle-derived structured generation (proptest, shrinking) + exhaustive small-alphabet pairs against a naive oracle (reverse)',
         "rule": SUB_GEN + "Judged: memmem::rfind and FinderRev::rfind against the naive rightmost occurrence (empty needle -> haystack length). "
                 "Non-trivial as C03.",
         "stages": sub_stages(short=False) + [huge_stage(["N-auto"])],
     },
     "C06": {
+        "technique": 'stateful property-based testing: complete next/next_back call-tree exploration per generated haystack against a model deque, size_hint validity at every node',
         "rule": "cases = (needle set, haystack, placement); for every case the COMPLETE next/next_back call tree is explored through clone() "
                 "when there are <= 10 matches (2^(k+2) histories), the whole (front, back) state lattice otherwise; at every node size_hint must "
                 "bracket the remaining count, and after exhaustion 4+4 alternating calls must return None. Implementations: Memchr/Memchr2/Memchr3, "
@@ -131,6 +136,7 @@ PLANS = {
         "stages": iter_stages() + [huge_stage(NATIVE)],
     },
     "C07": {
+        "technique": 'property-based testing: exhaustive enumeration + generated densities against a naive count; count() of clones at every node of the iterator call tree',
         "rule": "count()/count_raw of every One implementation and Memchr::count against the naive count over the C01 enumeration "
                 "(alignment x length x {none, single, first+dense, last+dense}), all match bitmaps, generated densities 1/2, 1/8, 1/64, every k-th, "
                 "all-but-one; plus count() of a clone taken at EVERY node of the complete next/next_back call tree (partially consumed iterators) "
@@ -139,6 +145,7 @@ PLANS = {
         "stages": byte_stages() + iter_stages() + [huge_stage(NATIVE)],
     },
     "C08": {
+        "technique": 'model-based property testing: literal greedy non-overlapping model vs complete iterator runs, size_hint validity before every step',
         "rule": SUB_GEN + "Judged: memmem::find_iter, Finder::find_iter (default and Prefilter::None), memmem::rfind_iter, FinderRev::rfind_iter and "
                 "the into_owned() forms, driven to the end + 3 extra calls, against the literal greedy model (leftmost, resume at i+max(len,1); mirror "
                 "image from the right; empty needle yields every offset once); size_hint of FindIter must bracket the remaining count before every "
@@ -146,6 +153,7 @@ PLANS = {
         "stages": sub_stages(short=False) + [huge_stage(["N-auto"])],
     },
     "C11": {
+        "technique": 'property-based testing with a validity predicate (candidate <= first occurrence, pair bytes present): exhaustive small spaces + generated large ones',
         "rule": "cases = (needle, (index1, index2), haystack). Enumerated: every needle of length 2..=5 over {a,b} (2..=4 over {a,b,c}) x every ordered "
                 "pair of distinct offsets x every haystack up to 13 (16) bytes on the 4/8-lane checked vectors and the portable prefilter. Generated: "
                 "needles up to 300 bytes, offsets up to 254 incl. index1 > index2, haystacks from the finder's minimum upwards with partial pair hits, "
@@ -159,12 +167,14 @@ PLANS = {
         ],
     },
     "C12": {
+        "technique": 'property-based testing: bounded-exhaustive + structured generation against a naive oracle for each public building block',
         "rule": SUB_GEN + "Judged: twoway::Finder/FinderRev, rabinkarp::Finder/FinderRev, shiftor::Finder (constructor must return None above 15 bytes), "
                 "packed pair find of sse2/avx2/neon/simd128/checked vectors for haystacks >= min_haystack_len (default pair over these inputs; explicit "
                 "index pairs in the pp stages), each against naive find/rfind. Non-trivial as C03.",
         "stages": sub_stages(short=False) + pp_stages(),
     },
     "C05": {
+        "technique": 'generated inputs against memory-access oracles: PROT_NONE guard pages + crash journal, bounds/alignment-checked scaled-down and emulated vector loads, builds without debug assertions, Miri on 5 targets, libFuzzer + ASan (thorough)',
         "rule": "Every generator of C01-C12/C18 re-run with memory access as the only thing judged: (1) every haystack/needle is copied into an "
                 "mmap arena so that it ends exactly at, or starts exactly after, a PROT_NONE page (and at every alignment in between); a read past "
                 "the slice faults and the SIGSEGV handler attributes it to the journaled case; (2) the crate's generic vector algorithms run on "
@@ -211,6 +221,7 @@ PLANS = {
         "technique": "differential testing: generated case files executed in 15 build/CPU/target configurations, record-for-record comparison",
     },
     "C10": {
+        "technique": 'metamorphic / differential property testing: 16 builder configurations (8 rankers x 2 prefilter settings) must agree on generated inputs',
         "rule": SUB_GEN + "Each generated (needle, haystack) is searched by finders built with Prefilter::None and Prefilter::Auto x 8 rankers (default, constant 0, "
                 "constant 255, identity, reversed, generated table, needle-bytes-most-common, stateful): find and the complete find_iter sequence must be identical "
                 "in all 16 configurations (the naive oracle only names the wrong side of a disagreement). The phase generator aims the false-candidate stretch at the pair the selected "
@@ -221,6 +232,7 @@ PLANS = {
         ],
     },
     "C13": {
+        "technique": 'property-based testing of a cost bound: generated adversarial families measured with a deterministic step counter (absolute bound + x4 scaling relation)',
         "rule": "The hook's step counter is read around (build finder + operation) for find, rfind, complete find_iter / rfind_iter traversals and the one-shot "
                 "functions on 12 adversarial families (a^(m-1)b in (a^(m-1)c)^r and in a^n, a^m in (a^(m-1)b)^r, needles > 255 bytes over two common bytes, "
                 "periodic needles in near-periods, pair bytes recurring everywhere, Fibonacci, Thue-Morse, quiet prefix then dense false candidates, empty "
@@ -234,6 +246,7 @@ PLANS = {
         "assumptions": DEFAULT_ASSUMPTIONS + ["the step counter only sees loops that carry a tick (all loops of the substring search code do); constant-factor slowdowns are by definition not violations"],
     },
     "C14": {
+        "technique": 'property-based testing / fuzzing for absence of panics: all generators under catch_unwind and a crash journal; exactness of the documented panic around min_haystack_len',
         "rule": "Union of the generators of C01-C12, C18, C19 executed in builds with debug assertions and overflow checks (native at three CPU levels, "
                 "emulated NEON/simd128/no-SIMD): any unwind from a top-level function, iterator, finder method or in-domain low-level searcher is a violation, "
                 "as is SIGABRT/SIGILL/SIGSEGV (crash journal). Documented panic: for every packed-pair finder type and generated (needle, pair), haystack "
@@ -257,6 +270,7 @@ PLANS = {
         ],
     },
     "C15": {
+        "technique": 'generated thread programs in fresh processes compared with the sequential-after reference; schedule exploration under Miri seeds; ThreadSanitizer (thorough)',
         "rule": "proptest generates thread programs (2..=16 threads (32 thorough), 1..=6 operations each over the seven dispatched memchr routines, a shared "
                 "Finder / FinderRev, complete find_iter traversals, and memchr iterators advanced on one thread and handed to another through a channel); each "
                 "program runs in a FRESH mvexec process so the dispatch cache is uninitialised, all threads are released by a barrier and race to install the "
@@ -273,6 +287,7 @@ PLANS = {
         "assumptions": DEFAULT_ASSUMPTIONS + ["native interleavings are whatever the OS scheduler produces; only the Miri stage owns its schedule; nothing is exhaustive over schedules"],
     },
     "C16": {
+        "technique": 'model-based stateful property testing: generated operation histories (reuse, clone, as_ref, into_owned, freed needle buffer) against fresh-finder references',
         "rule": "Model-based histories: op lists (<= 40 before, <= 30 after the needle buffer is overwritten with garbage and freed) over Find/Rfind on any of 3-7 "
                 "needle-derived haystacks (incl. one that exhausts the prefilter), StartIter/StartRevIter, Step, CloneFinder, AsRef, IntoOwned, CloneIter, "
                 "IntoOwnedIter, CheckNeedle. Reference: a FRESH finder's answer for that haystack (history independence), a fresh uninterrupted iterator's sequence for clones and "
@@ -284,6 +299,7 @@ PLANS = {
         ],
     },
     "C17": {
+        "technique": 'property-based testing with a counting global allocator armed around every generated API call (with positive control)',
         "rule": "A counting #[global_allocator] is armed around each API call: Finder::new, FinderRev::new, FinderBuilder (Prefilter::None, build_reverse, custom "
                 "ranker), find, rfind, memmem::find/rfind, complete find_iter/rfind_iter traversals (top-level and finder), as_ref+clone, memchr/2/3, "
                 "memrchr/2/3 and their iterators (next, next_back, count) - 27 calls per generated (needle, haystack) from the C03 / prefilter-phase / "
@@ -294,6 +310,7 @@ PLANS = {
         ],
     },
     "C18": {
+        "technique": 'bounded-exhaustive enumeration (lengths x difference positions x operand alignments, guard pages) + proptest against slice comparison',
         "rule": "Enumerated: lengths 0..=96 (160) x {equal, one flipped bit (0x01/0x80/0x10) at every position, two differences} x 8x8 (16x16) "
                 "alignments of the two operands + both operands abutting PROT_NONE pages; all length pairs 0..=40 (64) for is_prefix / is_suffix / "
                 "unequal lengths with a difference at every needle position; generated contents up to 600 bytes. Oracles ==, starts_with, ends_with. "
@@ -304,6 +321,7 @@ PLANS = {
         ],
     },
     "C19": {
+        "technique": 'exhaustive enumeration of all 65536 index pairs + generated needles x rankers against the statement as a predicate',
         "rule": "Pair::with_indices over ALL 65536 (index1, index2) for needle lengths {0,1,2,3,17,255,256,300}: accepted iff distinct and in range; "
                 "every accepted pair handed to every packed-pair finder type, whose pair() must report it. Pair::new/with_ranker over generated "
                 "needles (0..=600 bytes: single letter, two letters, all distinct, random, rare byte at front/middle/end/only beyond offset 254) x "
